@@ -154,8 +154,11 @@ func runComp(script []string) *caseResult {
 					want = fmt.Sprintf("ok %d", vSrc)
 				}
 				if reply != want {
-					res.fail("without faults a read does not return the object exactly when one of the backends holds it",
-						fmt.Sprintf("%s: got %q want %q (sink has=%v src has=%v)", line, reply, want, inSink, inSrc))
+					what := "without faults a read of an object that neither backend holds does not report NOT_FOUND"
+					if inSink || inSrc {
+						what = "without faults a read does not return the object although one of the backends holds it"
+					}
+					res.fail(what, fmt.Sprintf("%s: got %q want %q (sink has=%v src has=%v)", line, reply, want, inSink, inSrc))
 				}
 				if !copying(repl) && !reflect.DeepEqual(sink.snapshot(), sinkBefore) {
 					res.fail("a read with the noop replicator changed the fast/primary backend", line)
